@@ -454,8 +454,13 @@ Definition step (P : params) (s : sys) (t : nat) (ch : nat) : option (sys * labe
           LEv (Ev OLoad cell_cursor mo wpos 0 0))
   | RWaitSeg => Some (go RWaitOp, LPlain [])
   | RWaitOp =>
+    (* compare-and-block; a wait that would block may instead be interrupted (returns -1 with
+       EINTR, schedule choice 1, logged c = 2) or wake spuriously (returns 0, choice 2, c = 3):
+       the code ignores the return value and loops *)
     if s_cursor s =? t_pos x
-    then Some (go RBlocked, LEv (Ev OFwait cell_cursor MoNone (t_pos x) (s_cursor s) 1))
+    then (if Nat.eqb ch 1 then Some (go RSeg, LEv (Ev OFwait cell_cursor MoNone (t_pos x) (s_cursor s) 2))
+          else if Nat.eqb ch 2 then Some (go RSeg, LEv (Ev OFwait cell_cursor MoNone (t_pos x) (s_cursor s) 3))
+          else Some (go RBlocked, LEv (Ev OFwait cell_cursor MoNone (t_pos x) (s_cursor s) 1)))
     else Some (go RSeg, LEv (Ev OFwait cell_cursor MoNone (t_pos x) (s_cursor s) 0))
   | RRead =>
     let j := t_idx x mod cap c in
@@ -500,7 +505,9 @@ Definition step (P : params) (s : sys) (t : nat) (ch : nat) : option (sys * labe
       Some (set_thr (set_take s t m (unc1 crc + unc1 cs)) t x', LPlain [])
   | KWaitOp =>
     if s_cursor s =? t_pos x
-    then Some (go KBlocked, LEv (Ev OFwait cell_cursor MoNone (t_pos x) (s_cursor s) 1))
+    then (if Nat.eqb ch 1 then Some (go KSeg, LEv (Ev OFwait cell_cursor MoNone (t_pos x) (s_cursor s) 2))
+          else if Nat.eqb ch 2 then Some (go KSeg, LEv (Ev OFwait cell_cursor MoNone (t_pos x) (s_cursor s) 3))
+          else Some (go KBlocked, LEv (Ev OFwait cell_cursor MoNone (t_pos x) (s_cursor s) 1)))
     else Some (go KSeg, LEv (Ev OFwait cell_cursor MoNone (t_pos x) (s_cursor s) 0))
   | KUnlock =>
     Some (set_thr (set_mtx s 0 (t_view x)) t (set_pc x KDoneSeg), LEv (Ev OMunlock cell_rmtx MoNone 0 0 0))
